@@ -24,7 +24,7 @@ from ..facts import delivered_stop_reason, split_calls, static_holds, terminal_t
 
 ID = "C03"
 
-KNOBS = {"p_firing_timeout": 0.12, 
+KNOBS = {"p_attempt_timeout": 0.1, "p_firing_timeout": 0.12, 
     "modes": ["sync", "async"],
     "p_budget": 0.45, "p_abort": 0.3, "p_decisions": 0.5, "p_handler": 0.5,
     "p_generous": 0.45, "p_ok": 0.15, "p_hostile": 0.1, "p_overshoot": 0.35,
@@ -72,8 +72,19 @@ def check_call(scn: dict, cf, out: list, grants=()) -> None:
                 # the configured result classifier calls this value a failure, but it was never asked
                 out.append(V("R1", "a returned value was accepted as success without consulting the configured result classifier",
                              {"call": cf.cid, "attempt": a.k, "entry": entry, "value_is_none": bool(a.end.get("none"))}))
-            # otherwise: aborted by the poll that precedes classification
-            continue
+            if a.kind == "exc" and nxt is None and not getattr(a, "timed_out", False) and not any(e["ev"] == "POLL" for e in post) \
+                    and (cf.end["how"] == "return" or (cf.end["how"] == "outcome" and cf.end["out"]["ok"])):
+                out.append(V("R1", "an attempt that raised was taken for a success: the run ended although the failure was never judged",
+                             {"call": cf.cid, "attempt": a.k, "entry": entry, "etype": (a.end or {}).get("etype")}))
+                continue
+            if a.kind == "exc" and a.cls and not getattr(a, "timed_out", False) and not any(e["ev"] == "POLL" and e["ans"] for e in post) \
+                    and (nxt is not None or any(e["ev"] in ("STRATEGY", "SLEEP_BEGIN") for e in post)):
+                # retried without ever being shown to the classifier (a verdict remembered from the last time this
+                # exception object was seen): what counts is what the classifier says about it now
+                a.fclass = a.cls
+            else:
+                # aborted by the poll that precedes classification
+                continue
         S = static_holds(cfg, cf, idx)
         budgets = [e for e in post if e["ev"] == "BUDGET" and not e.get("ext")]
         retries = [e for e in post if e["ev"] in ("METRIC", "LOG") and e["event"] == "retry"]
